@@ -1,8 +1,11 @@
 package checks
 
 import (
+	"context"
 	"fmt"
 	"strings"
+	"sync"
+	"time"
 
 	"github.com/transparency-dev/witness/internal/persistence"
 	"github.com/transparency-dev/witness/verifmc/lspwrap"
@@ -156,6 +159,8 @@ func c03(tier string) int {
 	c03StorageFailures(run)
 	// Concurrent leg: a refused update overlapping accepted ones and readers.
 	c05Concurrent(run, "C03", tier)
+	// Context leg: the caller's context ends at every storage call of an update.
+	c03Contexts(run)
 	for _, c := range []string{"unknown-log", "bad-signature", "old-size-too-large", "stale-old-size", "root-mismatch", "invalid-proof", "non-empty-proof-at-size-zero", "storage-failure"} {
 		if run.HistGet("refusal_classes", c) == 0 {
 			run.Vacuous("refusal class %q was never exercised", c)
@@ -250,6 +255,8 @@ func c20(tier string) int {
 	run.Set("exhaustive", true)
 	run.Set("rule", fmt.Sprintf("explicit-state BFS (sizes 0..%d, main + forks at 0 and 3, both stores, single worker) over a two-log witness with a recording MetricFactory installed before the first witness is created; after every Update the delta of every counter x label is compared with the model: attempt +1 iff the log is known, success +1 iff accepted, invalid_consistency +1 iff refused for a bad proof, inconsistent_checkpoints +1 iff same size different root, nothing else moves. distinct_nontrivial = distinct (state, outcome, request)", n))
 	run.Assumption("counters are process-wide; the search runs with one worker so deltas are attributable to one call")
+	// Concurrent leg: two byte-identical requests overlapping are two requests.
+	c05Concurrent(run, "C20", tier)
 	return run.Finish()
 }
 
@@ -313,4 +320,113 @@ func c20Faults(run *ev.Run) {
 			}
 		}
 	}
+}
+
+// c03Contexts: the caller's context is cancelled at each storage call of an
+// otherwise acceptable update (before the call runs), for first use, growth
+// and refresh on both stores. Whatever the witness then answers, an answer
+// that is an ERROR must leave the state as it was - also once every goroutine
+// the update may have left behind has finished (the check waits for storage
+// activity to cease) - and a nil answer must have stored what it returned.
+func c03Contexts(run *ev.Run) {
+	u := uni.New(ev.Seed(), 8, nil)
+	gen := wh.NewCPGen(u)
+	la := wh.LogCfg{Origin: logA(), Key: u.K1}
+	type kind struct {
+		name   string
+		seed   int // 0 = no prior state
+		old, n int
+	}
+	var n int64
+	for _, store := range []string{"mem", "sql"} {
+		for _, k := range []kind{{"first-use", 0, 0, 3}, {"growth", 3, 3, 6}, {"refresh", 3, 3, 3}} {
+			for _, at := range []string{"before-the-call", "WriteOps", "w.GetLatest", "w.Set", "w.Close"} {
+				var cancel context.CancelFunc
+				armed := false
+				var mu sync.Mutex
+				lastActivity := time.Now()
+				e := wh.NewEnv(u, wh.Config{Store: store, Logs: []wh.LogCfg{la}, NoGuard: true, Wrap: func(p persistence.LogStatePersistence) persistence.LogStatePersistence {
+					return lspwrap.New(p, lspwrap.Hooks{Point: func(op, id string) {
+						mu.Lock()
+						lastActivity = time.Now()
+						fire := armed && op == at
+						if fire {
+							armed = false
+						}
+						mu.Unlock()
+						if fire {
+							cancel()
+						}
+					}, Observe: func(op, id string, data []byte, err error) {
+						mu.Lock()
+						lastActivity = time.Now()
+						mu.Unlock()
+					}})
+				}})
+				if k.seed > 0 {
+					cp, meta := gen.Get(la, u.Main, k.seed, "plain")
+					if out := e.Do(wh.Req{LogID: la.ID(), CP: cp, Meta: meta}); out.Class != wh.OK {
+						ev.Internal("C03 context leg: seeding failed: %v", out.Err)
+					}
+				}
+				before := e.Snap()
+				cp, meta := gen.Get(la, u.Main, k.n, "ext")
+				ctx, c := context.WithCancel(context.Background())
+				cancel = c
+				mu.Lock()
+				armed = true
+				mu.Unlock()
+				if at == "before-the-call" {
+					cancel()
+				}
+				type res struct {
+					b   []byte
+					err error
+				}
+				ch := make(chan res, 1)
+				go func() {
+					b, err := e.W.Update(ctx, la.ID(), uint64(k.old), append([]byte{}, cp...), u.Main.Proof(k.old, k.n))
+					ch <- res{b, err}
+				}()
+				var r res
+				select {
+				case r = <-ch:
+				case <-time.After(60 * time.Second):
+					run.Report("update-blocked-after-context-ended at="+at, fmt.Sprintf("%s store, %s: Update did not return within 60 s of its context being cancelled at %s", store, k.name, at), map[string]any{"kind": "context", "store": store, "update": k.name, "at": at})
+					continue
+				}
+				// Let anything the update left running finish: no storage call for 300 ms.
+				for {
+					mu.Lock()
+					idle := time.Since(lastActivity)
+					mu.Unlock()
+					if idle > 300*time.Millisecond {
+						break
+					}
+					time.Sleep(50 * time.Millisecond)
+				}
+				cancel()
+				after := e.Snap()
+				n++
+				rep := map[string]any{"kind": "context", "store": store, "update": k.name, "at": at}
+				run.Hist("context_outcomes", fmt.Sprintf("%s cancelled at %s -> error=%v", k.name, at, r.err != nil))
+				if r.err != nil {
+					if !after.Equal(before) {
+						run.Report("state-changed class=context-ended at="+at+" update="+k.name, fmt.Sprintf("%s store: %s with the caller's context cancelled at %s was refused (%v) but the stored state changed", store, k.name, at, r.err), rep)
+					}
+					if r.b != nil && string(r.b) != before.ByID[la.ID()] {
+						run.Report("bytes-with-refusal class=context-ended at="+at, fmt.Sprintf("%s store: %s refused (%v) but returned bytes that are not the stored checkpoint", store, k.name, r.err), rep)
+					}
+				} else {
+					text, _, ok := uni.SplitNote([]byte(after.ByID[la.ID()]))
+					if !ok || text != meta.Text || after.ByID[la.ID()] != string(r.b) {
+						run.Report("accepted-not-stored class=context-ended at="+at, fmt.Sprintf("%s store: %s with the context cancelled at %s was answered as accepted but the store does not hold what was returned", store, k.name, at), rep)
+					}
+				}
+				e.Close()
+			}
+		}
+	}
+	run.Set("context_cancellations", n)
+	run.Add("evaluations", n)
 }
